@@ -26,18 +26,18 @@ CHECKS = {
             EXPL % "; known findings K1-K3 reported as KNOWN-FINDING through fixed witnesses", BASE + "; single-text specs run as baseline and are reported separately in evidence", "6 (C04)", 900, 3600),
     "C05": ("deterministic simulation of compilation histories: every subsequence of a seeded cascade is compiled on every hash-seed node and checked against a memoryless-compiler reference model (text of S+[E] = text(S) ++ shifted stand-alone text of E); full program executed against chained dense evaluation",
             EXPL % " and of (history of Einsums translated earlier)", BASE + "; temporaries numbered by one monotone counter", "6 (C05)", 900, 3600),
-    "C06": (REPL % "mixed-class (S/O/A/K/T)" + "every distinct text reached under any seed analysed by a definite-assignment pass against a spec-derived free-name set, and executed",
+    "C06": (REPL % "mixed-class (S/O/A/A+/K/T/TK plain and spacetime, M/Mp metrics)" + "every distinct text reached under any seed analysed by a definite-assignment pass against a spec-derived free-name set, and executed",
             EXPL % "", "trusted base: closedness analyser model/closed.py and its allowed-name rules (DESIGN 4.3); reference runtime for the run-time NameError cross-check", "6 (C06)", 900, 3600),
     "C07": (REPL % "mixed-class (S/O/A/K/P)" + "post-run audit of the namespace left by the emitted program on the reference runtime (names vs rank ids, result binding, input snapshots)",
             EXPL % "", BASE, "6 (C07)", 900, 3600),
-    "C08": (REPL % "partitioned mixed-class" + "replica-agreement invariants: same-process recompile identical, every text closed, identical tensors under common names on identical inputs, same accept/reject on every seed",
+    "C08": (REPL % "partitioned mixed-class" + "replica-agreement invariants: same-process recompile identical, every text closed, identical tensors under the final name of every declared tensor on identical inputs, same accept/reject on every seed; compile twice from one set of parsed objects",
             EXPL % "; distinct texts per spec reported as the measure of interleavings reached", BASE, "6 (C08)", 900, 3600),
-    "C16": (REPL % "class-T (spacetime)" + "recording canvas stand-in; history check of createCanvas/addActivity/displayCanvas events against executed updates, point arities and stamp uniqueness",
+    "C16": (REPL % "class-T (spacetime over P/S/O/A Einsums and over cascades)" + "recording canvas stand-in; history check of createCanvas/addActivity/displayCanvas events against executed updates, point arities and stamp uniqueness",
             EXPL % "", BASE + "; canvas is a recording stand-in", "6 (C16)", 900, 3600),
     "C19": (REPL % "omitted-mapping" + "per seed, the spec as written and variants with the omitted section written out as the independently computed canonical default must compile to byte-identical text",
             EXPL % "", "trusted base: the harness's own computation of the canonical default from the YAML (gen/classes.py effective_loop_order)", "6 (C19)", 900, 3600),
-    "C10": ("deterministic simulation with a schedule seam: teaal.ir.flow_graph's topological_sort replaced, per unit, by Kahn's algorithm whose tie-breaks the simulator's PRNG decides (plus the real hash-seed orders); order / nesting / hoisting invariants on (flow graph, statement sequence) and closedness + dense-model agreement of the full translation under every tie-break",
-            "seeded exploration of (specification x hash seed x tie-break stream): 12 quick / 48 thorough linear extensions per (spec, seed); replayable (recorded picks); evidence, not proof",
+    "C10": ("deterministic simulation with a schedule seam: teaal.ir.flow_graph's topological_sort replaced, per unit, by Kahn's algorithm whose tie-breaks the simulator's PRNG decides (plus the real hash-seed orders); tie-break strategies: newest-first, oldest-first, uniformly random, and targeted ones scheduling one PRNG-chosen node as early / as late as its dependences allow; order / nesting / hoisting invariants on (flow graph, statement sequence) of every flow graph the translation builds, no name read before the statement that binds it, and dense-model agreement of the full translation under every tie-break",
+            "seeded exploration of (specification x hash seed x tie-break stream): 8 quick / 48 thorough linear extensions per (spec, seed); replayable (recorded picks); evidence, not proof",
             "trusted base: the compiler's own (pruned) dependence graph for the edge invariant - a lost edge is only caught through the closedness/dense cross-check under fuzzed tie-breaks", "6 (C10)", 900, 3600),
     "C11": (REPL % "class-M (architecture/bindings/format)" + "metrics-mode program and its plain-mode twin executed on identical inputs with inert recording stand-ins; tensors compared under every common name and with the dense model",
             EXPL % "", BASE + "; Metrics/Traffic/Compute/Format/intersector models are inert stand-ins (model/standins.py)", "6 (C11)", 900, 3600),
